@@ -75,13 +75,13 @@ CHECKS = {
     'C06': dict(
         level='exploration',
         units=[U('^TestC06$', (8, 3000), (14, 25000)), U('^TestC06_ArbitraryWeights$', (2, 10000), (2, 100000)), U('^TestC06_FarIndexes$', (2, 1500), (2, 60000))],
-        essential_labels=['layout:1', 'layout:2', 'layout:3', 'omit-mapping', 'prefix', 'concatenation', 'non-empty-receiver', 'both-sides', 'block:zero', 'variant:exact', 'target:collow', 'target:colhigh', 'target:paginated', 'source:paginated', 'arbitrary-weights', 'weight-changed-by-transform', 'weight-vanishes', 'far-indexes', 'index-delta-beyond-int32'],
+        essential_labels=['layout:1', 'layout:2', 'layout:3', 'omit-mapping', 'prefix', 'concatenation', 'non-empty-receiver', 'both-sides', 'block:zero', 'variant:exact', 'target:collow', 'target:colhigh', 'target:paginated', 'source:paginated', 'arbitrary-weights', 'weight-changed-by-transform', 'weight-vanishes', 'far-indexes', 'index-delta-beyond-int32', 'second-generation', 'encoding-after-weights-underflowed-to-zero'],
         assumptions=COMMON_ASSUMPTIONS + ["dyadic bounded weights survive the documented (w+1)-1 transform exactly; arbitrary weights are checked bit-for-bit against (w+1)-1 without being summed"],
     ),
     'C07': dict(
         level='exploration',
         units=[U('^TestC07_EncoderConforms$', (4, 6000), (6, 40000)), U('^TestC07_DecoderAcceptsGrammar$', (8, 3000), (9, 20000)), U('^TestC07_FarIndexes$', (2, 3000), (1, 100000)), F('FuzzC07Grammar', 120)],
-        essential_labels=['direction:A', 'direction:B', 'direction:C', 'layout:1', 'layout:2', 'layout:3', 'stride:negative', 'stride:zero', 'stride:large', 'repeated-index', 'N=0-block', 'repeated-mapping-block', 'mapping-between-bins', 'mapping-after-bins', 'exact-decoder', 'target:paginated', 'target:collow', 'multi-layout', 'producer:exact-variant', 'index-delta-beyond-int32', 'deltas-block-after-many-unit-bins'],
+        essential_labels=['direction:A', 'direction:B', 'direction:C', 'layout:1', 'layout:2', 'layout:3', 'stride:negative', 'stride:zero', 'stride:large', 'repeated-index', 'N=0-block', 'repeated-mapping-block', 'mapping-between-bins', 'mapping-after-bins', 'exact-decoder', 'target:paginated', 'target:collow', 'multi-layout', 'producer:exact-variant', 'index-delta-beyond-int32', 'deltas-block-after-many-unit-bins', 'encoding-after-weights-underflowed-to-zero'],
         assumptions=COMMON_ASSUMPTIONS + ["harness/refdec is the reading of the format documentation the streams are generated from and compared with", "indexes in generated streams are indexes of the mapping (between those of its smallest and largest indexable values) and stay within a memory-bounded cluster"],
     ),
     'C08': dict(
